@@ -9,5 +9,6 @@ set -e
 (cd sim && cargo build --release --offline -q)
 # warm the Miri sysroot and dependency build for the C04 thorough cross-check (best effort)
 (cd sim/miri_c18 && MIRIFLAGS="-Zmiri-disable-isolation -Zmiri-deterministic-floats -Zmiri-seed=0" cargo +nightly miri run --offline >/dev/null 2>&1 || true)
+(cd sim/miri_mt && MIRIFLAGS="-Zmiri-disable-isolation -Zmiri-deterministic-floats -Zmiri-seed=0" cargo +nightly miri run --offline -- c19 >/dev/null 2>&1 || true)
 (cd sim/miri_c04 && MIRIFLAGS="-Zmiri-disable-isolation" cargo +nightly miri run --offline -- --only Vneg 0 >/dev/null 2>&1 || true)
 CSIM_ROOT="$ROOT" sim/target/release/csim selftest alea
